@@ -255,7 +255,7 @@ cdef class cyDiscreteQuadraticModel:
             for u in range(num_variables):
                 case_u = samples[si, u]
 
-                if case_u >= self.num_cases(u):
+                if case_u < 0 or case_u >= self.num_cases(u):
                     raise ValueError("invalid case")
 
                 cu = self.case_starts_[u] + case_u
